@@ -18,7 +18,7 @@ CHECKS = {
  "C03": ("servlab", "exploration",
    "runtime monitor on regenerated servers: every posted instance decided by two independent schema oracles (reference validator written for the harness + python jsonschema Draft 4), handler-invoked flag and status observed",
    "Random schemas of the supported keyword fragment (type, properties/required incl. undeclared names, additionalProperties false/true/schema, items, enum, nullable, numeric bounds with boolean exclusives, multipleOf, string length and portable patterns, item and property counts, uniqueItems, allOf, oneOf/anyOf disjoint by construction with and without discriminator, $ref, recursive lists/trees/sums; wide objects crossing the required-bitmask byte boundaries) are served by servers generated from the current tree; per schema: schema-directed valid instances, every single-keyword boundary mutant of them (62 kinds) and random JSON. Oracle: handler invoked with 2xx iff both references call the instance valid, otherwise 400 and no handler call. Triples on which the references disagree are dropped and counted as inconclusive.",
-   "Deciding domain: integers within +-2^53 spelled without fraction/exponent, dyadic non-integers, no duplicate member names or lone surrogates, no enum+nullable, portable patterns. A schema the generator rejects with a classified diagnostic is tallied. Parameter schemas are covered by C01/C06/C15, not here.",
+   "Deciding domain: integers within +-2^53 spelled without fraction/exponent, dyadic non-integers, no duplicate member names or lone surrogates, no enum+nullable, portable patterns. A schema the generator rejects with a classified diagnostic is tallied. Parameter part: PRNG scalar and array-of-scalar schemas with the same constraint keywords are used as required query (form, exploded), path and header (simple) and cookie parameters; instances whose JSON kind equals the declared type and that the location can carry unambiguously are sent in the style table's serialization and decided by the same reference validator (signatures param/<location>/...).",
    "DESIGN.md §2 C03, Appendix C"),
  "C06": ("libmon", "exploration",
    "runtime monitor driving the uri encoders/decoders exactly as generated code does (real wire trip for headers and cookies), decided by a reference serializer written from the OpenAPI 3.0.3 style table; admission matrix observed from the real parser+generator",
